@@ -2759,6 +2759,13 @@ func (x *SExec) doCtlResize(i int, op SOp) *Fail {
 	if x.listed() == 0 {
 		return nil
 	}
+	sizeBefore := map[int]int64{}
+	for j, nd := range st.Nodes {
+		if r := nd.S.Replica(); r != nil {
+			sizeBefore[j] = r.Info().Size
+		}
+	}
+	ctlBefore := st.C.VerifState().Size
 	err := st.C.Resize(name, arg)
 	x.tracef("controller resize name=%s size=%s (old %d) -> %v", name, arg, old, err)
 	valid := op.Name == "" && op.Str == "" && op.N*Blk > old
@@ -2776,13 +2783,15 @@ func (x *SExec) doCtlResize(i int, op SOp) *Fail {
 			}
 			return sfail("ctlresize|"+why+"|accepted", fmt.Sprintf("Controller.Resize(%s,%s) accepted (%s), old size %d", name, arg, why, old), "C16")
 		}
-		if got := st.C.VerifState().Size; got != old {
-			return sfail("ctlresize|refused-but-size-changed", fmt.Sprintf("refused resize changed the controller size %d -> %d", old, got), "C16")
+		// a refused request changes nothing: sizes as they were before the call (a replica
+		// that joined an empty volume may carry another size than the controller remembers)
+		if got := st.C.VerifState().Size; got != ctlBefore {
+			return sfail("ctlresize|refused-but-size-changed", fmt.Sprintf("refused resize changed the controller size %d -> %d", ctlBefore, got), "C16")
 		}
 		for j, nd := range st.Nodes {
 			if x.Mode[j] == types.RW || x.Mode[j] == types.WO {
-				if r := nd.S.Replica(); r != nil && r.Info().Size != old {
-					return sfail("ctlresize|refused-but-replica-resized", fmt.Sprintf("refused resize changed n%d's size to %d", j, r.Info().Size), "C16")
+				if r := nd.S.Replica(); r != nil && r.Info().Size != sizeBefore[j] {
+					return sfail("ctlresize|refused-but-replica-resized", fmt.Sprintf("refused resize changed n%d's size from %d to %d", j, sizeBefore[j], r.Info().Size), "C16")
 				}
 			}
 		}
